@@ -163,3 +163,21 @@ def runner_failed_result(ev, rc, err, api=None, extra_mech=None):
                 "violations": [{"clause": "library-import-fails", "detail": e, "mech": {"exc_type": e["type"], **(extra_mech or {})}}],
                 "sample": {"tags": sorted(api.tags)[:20] if api is not None else []}}
     return {"verdict": "inconclusive", "why": f"runner rc={rc} {err[-600:]} {str(ev)[:1500]}"}
+
+
+def diverse(viol, n=40):
+    """At most n violations, taken round-robin over distinct (clause, mechanism) so that a frequent (possibly known) kind can
+    never crowd a different kind out of the report."""
+    import json as _json
+    groups = {}
+    for v in viol:
+        k = (v.get("clause"), _json.dumps(v.get("mech"), sort_keys=True, default=str))
+        groups.setdefault(k, []).append(v)
+    out = []
+    while len(out) < n and any(groups.values()):
+        for k in list(groups):
+            if groups[k]:
+                out.append(groups[k].pop(0))
+                if len(out) >= n:
+                    break
+    return out
